@@ -217,6 +217,15 @@ def run(ctx):
         documents.append("import qmluic.QtWidgets\nQWidget {\n%s}\n" % kids.replace("QLabel", "QPushButton").replace("label", "pushButton"))
         nid += 2
     ctx.dist("doc-ids-like-generated-names", nid)
+    # characters XML cannot carry written RAW in the source (not as an escape), one, two and three bytes long in UTF-8, in every kind of string place: the diagnostic
+    # that refuses them has to point at whole characters
+    nraw = 0
+    for ch in ("\x01", "\x0b", "\x1f", "\ufffe", "\uffff", "\x0c"):
+        for tmpl in ('QLabel { text: "a%sb" }', 'QLabel { text: "%s" }', 'QComboBox { model: ["x", "a%sb", "y"] }', 'QWidget { windowTitle: "\u00e9\u00e9%s\u00e9" }', 'QToolButton { icon.name: "n%s" }',
+                     'QLabel { text: qsTr("t%s") }', 'QTextBrowser { searchPaths: ["%s"] }', 'QLabel { text: "x" + "%s" }', 'QTabWidget { QWidget { QTabWidget.title: "\U0001f600%s" } }'):
+            documents.append("import qmluic.QtWidgets\n" + tmpl % ch + "\n")
+            nraw += 1
+    ctx.dist("doc-raw-non-xml-characters", nraw)
     if ctx.replay and isinstance(ctx.replay.get("case"), str):
         documents = [ctx.replay["case"]]
     ctx.dist("doc-corpus", len(base)); ctx.dist("doc-mutant", len(base) * nmut); ctx.dist("doc-soup", 400 if ctx.tier == "thorough" else 60)
